@@ -619,6 +619,16 @@ RCP<const Basic> floor(const RCP<const Basic> &arg)
                           SymEngine::get_den(s.as_rational_class()));
                 return integer(std::move(quotient));
             }
+            if (is_a<Complex>(*arg)) {
+                // both parts, like the floating point evaluators do
+                const Complex &c = down_cast<const Complex &>(*arg);
+                integer_class re, im;
+                mp_fdiv_q(re, SymEngine::get_num(c.real_), SymEngine::get_den(c.real_));
+                mp_fdiv_q(im, SymEngine::get_num(c.imaginary_),
+                          SymEngine::get_den(c.imaginary_));
+                return Complex::from_two_nums(*integer(std::move(re)),
+                                              *integer(std::move(im)));
+            }
             return arg;
         }
         RCP<const Number> _arg = rcp_static_cast<const Number>(arg);
@@ -713,6 +723,16 @@ RCP<const Basic> ceiling(const RCP<const Basic> &arg)
                           SymEngine::get_den(s.as_rational_class()));
                 return integer(std::move(quotient));
             }
+            if (is_a<Complex>(*arg)) {
+                // both parts, like the floating point evaluators do
+                const Complex &c = down_cast<const Complex &>(*arg);
+                integer_class re, im;
+                mp_cdiv_q(re, SymEngine::get_num(c.real_), SymEngine::get_den(c.real_));
+                mp_cdiv_q(im, SymEngine::get_num(c.imaginary_),
+                          SymEngine::get_den(c.imaginary_));
+                return Complex::from_two_nums(*integer(std::move(re)),
+                                              *integer(std::move(im)));
+            }
             return arg;
         }
         RCP<const Number> _arg = rcp_static_cast<const Number>(arg);
@@ -806,6 +826,16 @@ RCP<const Basic> truncate(const RCP<const Basic> &arg)
                 mp_tdiv_q(quotient, SymEngine::get_num(s.as_rational_class()),
                           SymEngine::get_den(s.as_rational_class()));
                 return integer(std::move(quotient));
+            }
+            if (is_a<Complex>(*arg)) {
+                // both parts, like the floating point evaluators do
+                const Complex &c = down_cast<const Complex &>(*arg);
+                integer_class re, im;
+                mp_tdiv_q(re, SymEngine::get_num(c.real_), SymEngine::get_den(c.real_));
+                mp_tdiv_q(im, SymEngine::get_num(c.imaginary_),
+                          SymEngine::get_den(c.imaginary_));
+                return Complex::from_two_nums(*integer(std::move(re)),
+                                              *integer(std::move(im)));
             }
             return arg;
         }
